@@ -581,3 +581,186 @@ Proof.
         apply forest_indef; [exact IH | exact Hch | unfold zlen in Hhdr2; cbn [app] in Hf; unfold ser_forest; fold content; lia |].
         unfold sub_limit. destruct (limit =? -1) eqn:E; lia.
 Qed.
+
+(* ------------------------------------------------------------------ *)
+(* 5. unber on a serialised document (one or more top-level encodings) *)
+
+Lemma unber_loop_forest ts : forall f off fsize,
+  wf_forest ts -> (length (ser_forest ts) < f)%nat ->
+  unber_loop f (ser_forest ts) off fsize = (exp_forest ts 0 off, XOk).
+Proof.
+  induction ts as [|t ts IH]; intros f off fsize Hwf Hf.
+  - destruct f as [|f']; [cbn in Hf; lia|]. reflexivity.
+  - destruct Hwf as [Hwt Hwts].
+    pose proof (ser_nonempty _ _ Hwt) as Hne.
+    unfold ser_forest in *. cbn [flat_map] in *.
+    destruct f as [|f']; [lia|].
+    cbn [unber_loop].
+    rewrite <- (app_nil_r (flat_map ser ts)) at 1. rewrite app_assoc, app_nil_r.
+    pose proof (node_ok_all t f' 0%nat (-1) 0 false fsize PD_FINISHED (flat_map ser ts) off Hwt ltac:(lia) ltac:(lia)) as Hn.
+    rewrite Hn. rewrite sub_limit_m1.
+    assert (Hnext : pd_next (pd f') (is_indef t) 0 (-1) (0 + tsize t) false (fsize + tsize t) (node_code t PD_FINISHED)
+                            (flat_map ser ts) (off + tsize t)
+                    = PDone [] PD_FINISHED (fsize + tsize t) (flat_map ser ts) (off + tsize t)).
+    { unfold pd_next. destruct t as [? ?|? [|] ?]; reflexivity. }
+    rewrite Hnext. cbn [emit].
+    rewrite app_length in Hf.
+    rewrite (IH f' (off + tsize t) (fsize + tsize t) Hwts ltac:(lia)).
+    unfold exp_forest. cbn [exp_all]. rewrite app_nil_r. reflexivity.
+Qed.
+
+Theorem unber_ser ts : wf_forest ts -> unber (ser_forest ts) = (exp_forest ts 0 0, XOk).
+Proof. intros H. apply unber_loop_forest; [exact H|lia]. Qed.
+
+(* ---- fields ---- *)
+
+Lemma opens_app a b : opens (a ++ b) = opens a ++ opens b.
+Proof. apply flat_map_app. Qed.
+
+Lemma opens_exp_all ch : Forall (fun c => forall lv off, opens (exp_lines c lv off) = nodes c off) ch ->
+  forall lv off, opens (exp_all (fun c o => exp_lines c lv o) ch off) = nodes_all nodes ch off.
+Proof.
+  induction 1 as [|c ch Hc Hch IH]; intros lv off; cbn [exp_all nodes_all]; [reflexivity|].
+  rewrite opens_app, Hc, IH. reflexivity.
+Qed.
+
+Lemma opens_exp_lines t : forall lv off, opens (exp_lines t lv off) = nodes t off.
+Proof.
+  induction t as [tag body|tag d ch IH] using ber_tree_ind'; intros lv off.
+  - reflexivity.
+  - destruct d; cbn [exp_lines nodes]; rewrite app_comm_cons, opens_app;
+      change (opens [_]) with (@nil (Z * Z * Z * Z)); rewrite app_nil_r;
+      cbn [opens flat_map app]; fold (opens (exp_all (fun c o => exp_lines c (S lv) o) ch (off + hdr_len (Cons tag true ch))));
+      fold (opens (exp_all (fun c o => exp_lines c (S lv) o) ch (off + hdr_len (Cons tag false ch))));
+      rewrite (opens_exp_all ch IH); reflexivity.
+Qed.
+
+Theorem unber_fields_forest ts : wf_forest ts ->
+  opens (fst (unber (ser_forest ts))) = nodes_forest ts 0 /\ snd (unber (ser_forest ts)) = XOk.
+Proof.
+  intros H. rewrite (unber_ser ts H). cbn [fst snd]. split; [|reflexivity].
+  unfold exp_forest, nodes_forest. apply opens_exp_all.
+  apply Forall_forall. intros c _ lv off. apply opens_exp_lines.
+Qed.
+
+(* ------------------------------------------------------------------ *)
+(* 6. enber on the lines unber prints *)
+
+Lemma enber_app a : forall b x y r, enber a = (x, None) -> enber b = (y, r) -> enber (a ++ b) = (x ++ y, r).
+Proof.
+  induction a as [|l a IH]; intros b x y r Ha Hb.
+  - cbn in Ha. injection Ha as <-. exact Hb.
+  - cbn [app enber] in *. destruct (enber_line l) as [bs [e|]]; [discriminate|].
+    destruct (enber a) as [bs' r'] eqn:Ea. injection Ha as <- ->.
+    rewrite (IH b bs' y r eq_refl Hb). rewrite app_assoc. reflexivity.
+Qed.
+
+Lemma reparse_tag_ok tag : tag_ok tag -> reparse_tag tag = Some tag.
+Proof.
+  intros [H0 H1]. unfold reparse_tag. unfold two30 in H1. unfold two32.
+  assert (Hq : 0 <= tag / 4) by (apply Z.div_pos; lia).
+  destruct (4294967296 <=? tag / 4) eqn:E; [lia|].
+  pose proof (Z.div_mod tag 4 ltac:(lia)) as Hdm. pose proof (Z.mod_pos_bound tag 4 ltac:(lia)).
+  rewrite Z.mod_small by lia. f_equal. lia.
+Qed.
+
+Lemma set_constr_mark bs tag : tag_ok tag -> set_constr (tag_serialize tag ++ bs) = mark_constructed (tag_serialize tag) ++ bs.
+Proof.
+  intros Ht. destruct (tag_serialize_shape tag Ht) as (b & tl & -> & _ & Hcb & _).
+  cbn [app set_constr mark_constructed]. rewrite Hcb. reflexivity.
+Qed.
+
+Lemma enber_tl_def kind tag n : tag_ok tag -> 0 <= n <= rssize_max -> (kind = 0 \/ kind = 1) ->
+  enber_tl kind tag (zlen (tag_serialize tag) + zlen (len_serialize n)) n =
+  ((if kind =? 0 then tag_serialize tag else mark_constructed (tag_serialize tag)) ++ len_serialize n, None).
+Proof.
+  intros Ht Hn Hk. unfold enber_tl.
+  destruct (tag_serialize_shape tag Ht) as (b & tl & Hts & _).
+  destruct (len_serialize_shape n Hn) as (lb & ltl & Hls & _).
+  assert (H2 : 2 <= zlen (tag_serialize tag) + zlen (len_serialize n)).
+  { rewrite Hts, Hls, !zlen_cons. pose proof (zlen_nonneg tl). pose proof (zlen_nonneg ltl). lia. }
+  replace (kind =? 2) with false by lia.
+  set (T := zlen (tag_serialize tag) + zlen (len_serialize n)) in *.
+  replace ((negb (T =? 0) && (T <? 2)) || (n <? 0)) with false by lia.
+  rewrite (reparse_tag_ok tag Ht). rewrite zlen_app. fold T. rewrite Z.eqb_refl.
+  replace (negb (T =? 0) && negb true) with false by (cbn; lia).
+  destruct Hk as [-> | ->]; cbn [Z.eqb]; [reflexivity|]. rewrite set_constr_mark by exact Ht. reflexivity.
+Qed.
+
+Lemma enber_tl_indef tag : tag_ok tag ->
+  enber_tl 2 tag (zlen (tag_serialize tag) + 1) (-1) = (mark_constructed (tag_serialize tag) ++ [128], None).
+Proof.
+  intros Ht. unfold enber_tl.
+  destruct (tag_serialize_shape tag Ht) as (b & tl & Hts & _).
+  assert (H2 : 2 <= zlen (tag_serialize tag) + 1).
+  { rewrite Hts, !zlen_cons. pose proof (zlen_nonneg tl). lia. }
+  change (2 =? 2) with true. cbv iota.
+  set (T := zlen (tag_serialize tag) + 1) in *.
+  replace ((negb (T =? 0) && (T <? 2)) || (0 <? 0)) with false by lia.
+  rewrite (reparse_tag_ok tag Ht). rewrite zlen_app. change (zlen [128]) with 1. fold T. rewrite Z.eqb_refl.
+  replace (negb (T =? 0) && negb true) with false by (cbn; lia).
+  change (2 =? 0) with false. cbv iota. rewrite set_constr_mark by exact Ht. reflexivity.
+Qed.
+
+Definition enber_ok (t : ber_tree) : Prop :=
+  forall b lv off, wf_tree t b -> enber (exp_lines t lv off) = (ser t, None).
+
+Lemma enber_exp_all ch : Forall enber_ok ch -> forall b lv off,
+  allP (fun c => wf_tree c b) ch ->
+  enber (exp_all (fun c o => exp_lines c lv o) ch off) = (flat_map ser ch, None).
+Proof.
+  induction 1 as [|c ch Hc Hch IH]; intros b lv off Hwf; [reflexivity|].
+  destruct Hwf as [Hw Hws]. cbn [exp_all flat_map].
+  apply enber_app; [apply (Hc b); exact Hw|apply (IH b); exact Hws].
+Qed.
+
+Lemma enber_ok_all t : enber_ok t.
+Proof.
+  induction t as [tag body|tag d ch IH] using ber_tree_ind'; intros b lv off Hwf.
+  - cbn [wf_tree] in Hwf. destruct Hwf as (Htag & Hbody & Hlen & _).
+    pose proof (zlen_nonneg body).
+    cbn [exp_lines hdr_len enber enber_line].
+    rewrite (enber_tl_def 0 tag (zlen body) Htag ltac:(lia) ltac:(lia)).
+    rewrite Z.eqb_refl. change (0 =? 0) with true. cbv iota. rewrite app_nil_r, <- app_assoc. reflexivity.
+  - cbn [wf_tree] in Hwf. destruct Hwf as (Htag & Hch & Hlen).
+    destruct d.
+    + specialize (Hlen eq_refl). pose proof (zlen_nonneg (flat_map ser ch)) as Hc0.
+      cbn [exp_lines hdr_len]. unfold fsize_of, ser_forest.
+      change (LOpen lv off tag (zlen (tag_serialize tag) + zlen (len_serialize (zlen (flat_map ser ch)))) (zlen (flat_map ser ch))
+              :: exp_all (fun c o => exp_lines c (S lv) o) ch (off + (zlen (tag_serialize tag) + zlen (len_serialize (zlen (flat_map ser ch)))))
+                 ++ [LClose lv (off + tsize (Cons tag true ch)) tag (tsize (Cons tag true ch))])
+        with ([LOpen lv off tag (zlen (tag_serialize tag) + zlen (len_serialize (zlen (flat_map ser ch)))) (zlen (flat_map ser ch))]
+              ++ exp_all (fun c o => exp_lines c (S lv) o) ch (off + (zlen (tag_serialize tag) + zlen (len_serialize (zlen (flat_map ser ch)))))
+                 ++ [LClose lv (off + tsize (Cons tag true ch)) tag (tsize (Cons tag true ch))]).
+      cbn [ser]. rewrite (app_assoc (mark_constructed (tag_serialize tag))).
+      apply enber_app.
+      * cbn [enber enber_line]. replace (zlen (flat_map ser ch) =? -1) with false by lia.
+        rewrite (enber_tl_def 1 tag (zlen (flat_map ser ch)) Htag ltac:(lia) ltac:(lia)). change (1 =? 0) with false. cbv iota.
+        rewrite app_nil_r. reflexivity.
+      * rewrite <- (app_nil_r (flat_map ser ch)) at 2.
+        apply enber_app; [apply (enber_exp_all ch IH (negb true)); exact Hch | reflexivity].
+    + cbn [exp_lines hdr_len].
+      change (LOpen lv off tag (zlen (tag_serialize tag) + 1) (-1)
+              :: exp_all (fun c o => exp_lines c (S lv) o) ch (off + (zlen (tag_serialize tag) + 1))
+                 ++ [LCloseI lv (off + tsize (Cons tag false ch) - 2) (tsize (Cons tag false ch))])
+        with ([LOpen lv off tag (zlen (tag_serialize tag) + 1) (-1)]
+              ++ exp_all (fun c o => exp_lines c (S lv) o) ch (off + (zlen (tag_serialize tag) + 1))
+                 ++ [LCloseI lv (off + tsize (Cons tag false ch) - 2) (tsize (Cons tag false ch))]).
+      cbn [ser]. rewrite (app_assoc (mark_constructed (tag_serialize tag))).
+      apply enber_app.
+      * cbn [enber enber_line]. change (-1 =? -1) with true. cbv iota.
+        rewrite (enber_tl_indef tag Htag). rewrite app_nil_r. reflexivity.
+      * apply enber_app; [apply (enber_exp_all ch IH (negb false)); exact Hch | reflexivity].
+Qed.
+
+Theorem xxber_inverse_forest ts : wf_forest ts -> xxber (ser_forest ts) = (ser_forest ts, None).
+Proof.
+  intros H. unfold xxber. rewrite (unber_ser ts H). cbn [fst].
+  apply (enber_exp_all ts (proj2 (Forall_forall _ _) (fun c _ => enber_ok_all c)) false 0%nat 0 H).
+Qed.
+
+Theorem xxber_inverse t : wf_tree t false -> xxber (ser t) = (ser t, None).
+Proof.
+  intros H. pose proof (xxber_inverse_forest [t] (conj H I)) as E.
+  unfold ser_forest in E. cbn [flat_map] in E. rewrite app_nil_r in E. exact E.
+Qed.
